@@ -219,10 +219,27 @@ def check_optimal(ctx, fb):
     ps = ret_paths(e.run(li))
     rv = e.value_of(ps[0].store, ps[0].ret) if len(ps) == 1 else None
     it4, c = closure_arms(fb, OPT_P + "leaf_index::{closure#0}")
-    sh1 = ("bin", "Shl", P(2), mk_const("i32", 1))
-    good = rv is not None and rv[0] == "call" and rv[1].endswith("::fold") and rv[2][0][0] == "upd" and rv[2][0][1].endswith("::reverse") and cint(rv[2][1]) == 0 and c is not None and \
-        c.get(None) is not None and c[None][0] == "bin" and c[None][1] == "Add" and c[None][2] == sh1 and c[None][3][0] == "call" and c[None][3][2] == (P(3),)
-    ctx.check(good, "R07-1", "OptimalMerkleProof::leaf_index", "reverse, then fold acc*2 + bit", "leaf_index is %s with step %s" % (sh(rv, 120), sh((c or {}).get(None), 80)), loc(li))
+    # the direction bits are folded most-significant first: either the list is reversed in place and folded, or folded through .rev();
+    # the accumulator must be a usize (a narrower one wraps for deep trees) and each step is acc*2 + bit (| is the same on a 0/1 bit)
+    def reversed_bits(t):
+        if isinstance(t, tuple) and t and t[0] == "upd" and isinstance(t[1], str) and t[1].endswith("::reverse"):
+            return True
+        n = 0
+        while isinstance(t, tuple) and t and t[0] == "call" and n < 4:
+            if t[1].endswith("::rev"):
+                return True
+            if re.search(r"::(iter|into_iter|copied|cloned)$", t[1]) and t[2]:
+                t = t[2][0]
+                n += 1
+            else:
+                break
+        return False
+    step = (c or {}).get(None)
+    acc_ty = it4.locals[2]["ty"] if it4 is not None and len(it4.locals) > 2 else None
+    good = rv is not None and rv[0] == "call" and rv[1].endswith("::fold") and reversed_bits(rv[2][0]) and "get_path_index" in repr(rv[2][0]) and cint(rv[2][1]) == 0 \
+        and acc_ty == "usize" and step is not None and step[0] == "bin" and step[1] in ("Add", "BitOr") \
+        and step[2][:3] == ("bin", "Shl", P(2)) and cint(step[2][3]) == 1 and step[3][0] == "call" and step[3][2] == (P(3),)
+    ctx.check(good, "R07-1", "OptimalMerkleProof::leaf_index", "direction bits folded most-significant first into a usize: acc*2 + bit", "leaf_index is %s with step %s (accumulator type %s)" % (sh(rv, 120), sh((c or {}).get(None), 80), acc_ty), loc(li))
     vf = fb.need(OPT_T + "verify")
     ctx.touch(vf)
     e2 = Engine(fb, inline=opaque_rx(r"compute_root_from$|ZerokitMerkleTree>::root$|ZerokitMerkleProof>::length$"))
